@@ -1466,6 +1466,7 @@ var (
 	probeMu  sync.Mutex
 	probeCur map[string]int64
 	probeMax map[string]int64
+	probeMin map[string]int64
 )
 
 // ProbeReset clears all probe counters (called at the start of a run).
@@ -1475,6 +1476,7 @@ func ProbeReset() {
 	probeMu.Lock()
 	probeCur = map[string]int64{}
 	probeMax = map[string]int64{}
+	probeMin = map[string]int64{}
 	probeMu.Unlock()
 }
 
@@ -1486,12 +1488,25 @@ func ProbeAdd(name string, d int64) {
 	if probeCur == nil {
 		probeCur = map[string]int64{}
 		probeMax = map[string]int64{}
+		probeMin = map[string]int64{}
 	}
 	probeCur[name] += d
 	if probeCur[name] > probeMax[name] {
 		probeMax[name] = probeCur[name]
 	}
+	if probeCur[name] < probeMin[name] {
+		probeMin[name] = probeCur[name]
+	}
 	probeMu.Unlock()
+}
+
+// ProbeMin returns the minimum the named counter reached since ProbeReset (0 if it never went negative).
+//
+//go:norace
+func ProbeMin(name string) int64 {
+	probeMu.Lock()
+	defer probeMu.Unlock()
+	return probeMin[name]
 }
 
 // ProbeMax returns the maximum the named counter reached since ProbeReset.
